@@ -84,6 +84,7 @@ PROPS = {
     "C13": {
         "modules": ["Ark.Props.C13", "Ark.Props.C13b", "Ark.Props.C13c"],
         "gen_from": "C16",
+        "extra_streams": [{"crate": "harness2", "bin": "c13x"}],
         "rule": "one op line per expander / hash_to_field / map_to_curve / hash call; distinct = distinct op line; non-trivial = non-empty message or u outside {0,1}",
         "exhaustive": ["all u of the toy SWU (F_127, F_49), WB and Elligator (F_101, F_127) configurations"],
         "partial": [],
